@@ -41,6 +41,9 @@ pub struct Ctx {
 impl Ctx {
     /// Number of executions this shard should perform given totals for each tier.
     pub fn runs(&self, quick_total: u64, thorough_total: u64) -> u64 {
+        if let Some(n) = std::env::var("VERIF_RUNS_PER_SHARD").ok().and_then(|v| v.parse::<u64>().ok()) {
+            return n.max(1);
+        }
         let total = match self.tier {
             Tier::Quick => quick_total,
             Tier::Thorough => thorough_total,
